@@ -20,9 +20,27 @@ CHECKS = {
    text="TLC checks J1 (all-or-nothing), J3 (completed operations durable), J4 (close loses nothing) for every bounded operation history x every statement boundary of the model, and reproduces the loss when set_seq_num does not commit (vacuity self-check). Every operation sequence of the model graph plus seeded random histories is run on a real file-backed Journaler; at every boundary before/after each execute() and commit() of the last operation, right after it returned, and after a normal close, the on-disk state is reopened by a fresh Journaler and TLC decides whether it equals the model state before or after the operation. A sample is realised by real os._exit() in forked children.",
    design_ref="5/C08",
    note="SQLite rollback-journal atomicity trusted; crash = process death (not power loss); default realisation is an on-disk snapshot of db+journal at the boundary (fork per point does not scale in this VM), cross-checked by real forked crashes on a sample. " + COMMON_NOTE),
+ "C04": dict(engine="Session1",
+   technique="TLA+ session-layer model (spec/Endpoint.tla handlers as operators, spec/Session1.tla environment) model-checked by TLC against clauses D1-D4 (spec/SessionProps.tla); shortest event path to every model state x every alphabet event replayed on a real connection; every recorded step evaluated by TLC (spec/SessionEval.tla) for the clauses and for conformance with the model",
+   text="Bounded-exhaustive: all inbound histories of the relative alphabet (8 frame kinds x number below/at/above x PossDup x GapFill/NewSeqNo x header defects; sends; EOF; reconnect) up to the depth bound from 5 preambles (fresh, active acceptor/initiator, with journal, awaiting resend) are checked on the model by TLC and replayed on the real connection, plus seeded random walks of up to 40 events with counters up to 2^31. TLC evaluates delivery gate, counter law, one-ResendRequest-per-gap (monitor-side history) and strictly increasing delivery on every implementation step.",
+   design_ref="5/C04", note="Whole frames only (chunking is C03/C10); transport up; in-memory journal; virtual clock. " + COMMON_NOTE),
+ "C05": dict(engine="Session1",
+   technique="same TLA+ model and replay as C04; clauses N1-N5 (consecutive numbering, journal row with exact bytes hash, stored counter, refused sends consume nothing) evaluated by TLC on every implementation step",
+   text="Every send class (application, Logon, Logout, Heartbeat, TestRequest, SequenceReset/PossDup with and without number) in every reachable connection state and role, interleaved with inbound traffic that causes sends, from starting counters 1, 5/9, 10^6 and 2^31-300: TLC checks the clauses on the model and evaluates them on the recorded wire bytes and journal of the real connection.",
+   design_ref="5/C05", note="Frames compared with journal rows by SHA-1 prefix of the exact bytes; link up (a failed drain is only injected to create journal holes). " + COMMON_NOTE),
+ "C06": dict(engine="Session1",
+   technique="same TLA+ model; clauses R1-R6 on the reply to every ResendRequest; additionally every outbound journal up to a length bound x every (BeginSeqNo, EndSeqNo) x {ACTIVE, RESENDREQ_AWAITING}, each request issued twice, evaluated by TLC",
+   text="Journals of length <= 2 (quick) / 4 (thorough) over {application, declined application, session message, hole} x all (b, e) in -1..last+2 (and e = 0) x both states: coverage chain R1, replay of accepted application rows R2, PossDup/OrigSendingTime/body R3, no session message retransmitted R4, no side effects on counters, journal outside the range and state R5, invalid requests answered by nothing that renumbers R6.",
+   design_ref="5/C06", note="OrigSendingTime compared as text with the journaled SendingTime. " + COMMON_NOTE),
+ "C11": dict(engine="Session1",
+   technique="same TLA+ model; clauses G1-G5 (first message rule, send refusals, integrity defects, wrong BeginString, silence and single on_disconnect after disconnect) evaluated by TLC on model transitions and on every implementation step",
+   text="Every connection state reachable in the bounded model x role x frame class x integrity defect (no 49, no 56, swapped, wrong 49, wrong 56, no 34, wrong BeginString, number below/at/above) x send attempts of every class, followed by further input after a disconnect.",
+   design_ref="5/C11", note="Roles are reached through the bare AsyncFIXConnection as the repository's tests do; client/server connect paths are exercised in C07. " + COMMON_NOTE),
 }
 
 ENGINES = [
+ dict(name="Session1", path="spec/Endpoint.tla spec/Session1.tla spec/Session1MC.tla spec/SessionProps.tla spec/SessionEval.tla harness/net.py harness/session.py harness/sessrun.py",
+      serves_properties=["C04", "C05", "C06", "C11"], kind_free_text="TLA+ model of one connection object (every handler of connection.py as an operator) + TLC exhaustive check of the property clauses + replay of every model state x event on the real connection + TLC evaluation of recorded steps"),
  dict(name="JournalTx", path="spec/JournalTx.tla spec/JournalCrashEval.tla harness/crash.py harness/props/c08.py",
       serves_properties=["C08"], kind_free_text="TLA+ model of the journal's SQLite transactions with crash points + TLC + crash experiments on real files"),
  dict(name="Journal", path="spec/Journal.tla spec/JournalMC.tla spec/JournalEval.tla harness/props/c13.py",
